@@ -306,7 +306,7 @@ static void check_pair(const pat_t * P, const char * hdr, size_t len, const char
         D.L = (size_t) ((pair_no + (pair_no >> 3)) % (uint64_t) (k + 2));
         kc[K_DISP_INPUTS]++; evals_local++;
         { int how = (int) ((pair_no + (pair_no >> 5)) % 7u); how = how == 5 ? 1 : how == 6 ? 2 : 0; /* the line ends with its terminator, with a flush call, or with a flush call after travelling behind an empty line */
-          vh_deliver(V, line, len + tl + 1, how); if (how) vh_count(how == 1 ? "dispatch.header_line_ended_by_flush" : "dispatch.header_line_behind_an_empty_line_then_flush", 1); }
+          vh_deliver(V, line, len + tl + 1, 1, how); if (how) vh_count(how == 1 ? "dispatch.header_line_ended_by_flush" : "dispatch.header_line_behind_an_empty_line_then_flush", 1); }
         if (D.ran) kc[K_DISP_RAN]++; else kc[K_DISP_NOT_RAN]++;
         if (r && !(D.ran && D.raw_same)) report_acceptance(2, P, hdr, len, cls, 1, 0, D.ran ? "handler ran for a different header text" : "no handler invoked through SCPI_Input");
         if (D.ran > 1) vh_violation("C03:dispatch-handler-ran-twice", "pattern \"%s\" input \"%s\\n\": handler invoked %d times", P->text, vh_esc(hdr, len), D.ran);
